@@ -337,6 +337,60 @@ fn free_running_pass(stats: &mut Stats) {
         ("bulk-math", "(math::sin(2.0), math::cos(2.75), math::ln(4.0), math::exp(4.25), math::sqrt(5.5), math::tan(5.75), math::atan(6.5), math::cbrt(7.25), math::sinh(8.0), math::log2(9.25), math::log10(10.0), math::exp2(10.25), math::sin(11.0), math::cos(11.75), math::ln(13.0), math::exp(13.25), math::sqrt(14.5), math::tan(14.75), math::atan(15.5), math::cbrt(16.25), math::sinh(17.0), math::log2(18.25), math::log10(19.0), math::exp2(19.25))", "(math::sin(5.0), math::cos(5.75), math::ln(7.0), math::exp(7.25), math::sqrt(8.5), math::tan(8.75), math::atan(9.5), math::cbrt(10.25), math::sinh(11.0), math::log2(12.25), math::log10(13.0), math::exp2(13.25), math::sin(14.0), math::cos(14.75), math::ln(16.0), math::exp(16.25), math::sqrt(17.5), math::tan(17.75), math::atan(18.5), math::cbrt(19.25), math::sinh(20.0), math::log2(21.25), math::log10(22.0), math::exp2(22.25))"),
         ("bulk-case-conversion", "(str::to_lowercase(\"Alpha-Subject-Number-00-With-Enough-Characters-To-Be-Long\"), str::to_uppercase(\"Alpha-Subject-Number-01-With-Enough-Characters-To-Be-Long\"), str::to_lowercase(\"Alpha-Subject-Number-02-With-Enough-Characters-To-Be-Long\"), str::to_uppercase(\"Alpha-Subject-Number-03-With-Enough-Characters-To-Be-Long\"), str::to_lowercase(\"Alpha-Subject-Number-04-With-Enough-Characters-To-Be-Long\"), str::to_uppercase(\"Alpha-Subject-Number-05-With-Enough-Characters-To-Be-Long\"), str::to_lowercase(\"Alpha-Subject-Number-06-With-Enough-Characters-To-Be-Long\"), str::to_uppercase(\"Alpha-Subject-Number-07-With-Enough-Characters-To-Be-Long\"), str::to_lowercase(\"Alpha-Subject-Number-08-With-Enough-Characters-To-Be-Long\"), str::to_uppercase(\"Alpha-Subject-Number-09-With-Enough-Characters-To-Be-Long\"), str::to_lowercase(\"Alpha-Subject-Number-10-With-Enough-Characters-To-Be-Long\"), str::to_uppercase(\"Alpha-Subject-Number-11-With-Enough-Characters-To-Be-Long\"), str::to_lowercase(\"Alpha-Subject-Number-12-With-Enough-Characters-To-Be-Long\"), str::to_uppercase(\"Alpha-Subject-Number-13-With-Enough-Characters-To-Be-Long\"), str::to_lowercase(\"Alpha-Subject-Number-14-With-Enough-Characters-To-Be-Long\"), str::to_uppercase(\"Alpha-Subject-Number-15-With-Enough-Characters-To-Be-Long\"), str::to_lowercase(\"Alpha-Subject-Number-16-With-Enough-Characters-To-Be-Long\"), str::to_uppercase(\"Alpha-Subject-Number-17-With-Enough-Characters-To-Be-Long\"), str::to_lowercase(\"Alpha-Subject-Number-18-With-Enough-Characters-To-Be-Long\"), str::to_uppercase(\"Alpha-Subject-Number-19-With-Enough-Characters-To-Be-Long\"))", "(str::to_lowercase(\"Beta-Subject-Number-00-With-Enough-Characters-To-Be-Long\"), str::to_uppercase(\"Beta-Subject-Number-01-With-Enough-Characters-To-Be-Long\"), str::to_lowercase(\"Beta-Subject-Number-02-With-Enough-Characters-To-Be-Long\"), str::to_uppercase(\"Beta-Subject-Number-03-With-Enough-Characters-To-Be-Long\"), str::to_lowercase(\"Beta-Subject-Number-04-With-Enough-Characters-To-Be-Long\"), str::to_uppercase(\"Beta-Subject-Number-05-With-Enough-Characters-To-Be-Long\"), str::to_lowercase(\"Beta-Subject-Number-06-With-Enough-Characters-To-Be-Long\"), str::to_uppercase(\"Beta-Subject-Number-07-With-Enough-Characters-To-Be-Long\"), str::to_lowercase(\"Beta-Subject-Number-08-With-Enough-Characters-To-Be-Long\"), str::to_uppercase(\"Beta-Subject-Number-09-With-Enough-Characters-To-Be-Long\"), str::to_lowercase(\"Beta-Subject-Number-10-With-Enough-Characters-To-Be-Long\"), str::to_uppercase(\"Beta-Subject-Number-11-With-Enough-Characters-To-Be-Long\"), str::to_lowercase(\"Beta-Subject-Number-12-With-Enough-Characters-To-Be-Long\"), str::to_uppercase(\"Beta-Subject-Number-13-With-Enough-Characters-To-Be-Long\"), str::to_lowercase(\"Beta-Subject-Number-14-With-Enough-Characters-To-Be-Long\"), str::to_uppercase(\"Beta-Subject-Number-15-With-Enough-Characters-To-Be-Long\"), str::to_lowercase(\"Beta-Subject-Number-16-With-Enough-Characters-To-Be-Long\"), str::to_uppercase(\"Beta-Subject-Number-17-With-Enough-Characters-To-Be-Long\"), str::to_lowercase(\"Beta-Subject-Number-18-With-Enough-Characters-To-Be-Long\"), str::to_uppercase(\"Beta-Subject-Number-19-With-Enough-Characters-To-Be-Long\"))"),
     ];
+    // user functions that panic, with distinct messages, in both trees: whatever the library does with a
+    // panicking function (today the panic propagates), every thread must see what it sees sequentially
+    {
+        let mut ctx = HCtx::new();
+        ctx.set_value("x".into(), Value::Int(100)).unwrap();
+        ctx.set_function("pa".into(), Function::new(|_| panic!("user function pa failed: A"))).unwrap();
+        ctx.set_function("pb".into(), Function::new(|_| panic!("user function pb failed: B"))).unwrap();
+        if let (Ok(ta), Ok(tb)) = (build_operator_tree::<DefaultNumericTypes>("x + pa(1)"), build_operator_tree::<DefaultNumericTypes>("pb(2) * x")) {
+            let observe = |t: &ENode, c: &HCtx| -> String {
+                match std::panic::catch_unwind(std::panic::AssertUnwindSafe(|| t.eval_with_context(c))) {
+                    Ok(r) => format!("{:?}", r),
+                    Err(p) => format!("panic: {}", p.downcast_ref::<&str>().map(|s| s.to_string()).or_else(|| p.downcast_ref::<String>().cloned()).unwrap_or_default()),
+                }
+            };
+            let want = vec![observe(&ta, &ctx), observe(&tb, &ctx)];
+            let shared = Arc::new((vec![ta, tb], ctx, want));
+            let barrier = Arc::new(std::sync::Barrier::new(8));
+            let handles: Vec<_> = (0..8usize)
+                .map(|tid| {
+                    let shared = shared.clone();
+                    let barrier = barrier.clone();
+                    std::thread::spawn(move || -> Option<String> {
+                        barrier.wait();
+                        for round in 0..2000usize {
+                            let k = (tid + round) % 2;
+                            let got = match std::panic::catch_unwind(std::panic::AssertUnwindSafe(|| shared.0[k].eval_with_context(&shared.1))) {
+                                Ok(r) => format!("{:?}", r),
+                                Err(p) => format!("panic: {}", p.downcast_ref::<&str>().map(|s| s.to_string()).or_else(|| p.downcast_ref::<String>().cloned()).unwrap_or_default()),
+                            };
+                            if got != shared.2[k] {
+                                return Some(format!("thread {} round {}: {} where the sequential run gives {}", tid, round, got, shared.2[k]));
+                            }
+                        }
+                        None
+                    })
+                })
+                .collect();
+            stats.count("free-running/workloads");
+            stats.evaluations += 8 * 2000;
+            for h in handles {
+                if let Ok(Some(diff)) = h.join() {
+                    stats.violation(Violation {
+                        property: ID,
+                        kind: "free-running-result-differs-from-sequential".into(),
+                        input: json!({"engine": "free-running threads (sampling)", "workload": "panicking-user-functions", "sources": ["x + pa(1)", "pb(2) * x"]}),
+                        expected: "every thread observes the sequential results".into(),
+                        actual: diff,
+                        test: String::new(),
+                    });
+                    break;
+                }
+            }
+        }
+    }
     for (name, a, b) in pairs {
         let trees: Vec<ENode> = match (build_operator_tree::<DefaultNumericTypes>(a), build_operator_tree::<DefaultNumericTypes>(b)) {
             (Ok(x), Ok(y)) => vec![x, y],
